@@ -3,12 +3,14 @@
 (* and which defaults replace zero values (xz.WriterConfig, lzma.Writer2Config, *)
 (* lzma.WriterConfig, the three ReaderConfigs).  Values that do not fit TLC's  *)
 (* integers are tokens: dictionary capacities are                             *)
-(*   "0" (default) "1" "4095" "4096" "8MiB" "max" (2^32-1) "over" (2^32).     *)
+(*   "0" (default) "1" "4095" "4096" "4097" "100000" (not sizes the LZMA2      *)
+(*   header can express) "8MiB" "max" (2^32-1) "over" (2^32).                  *)
+(* Reader records also carry SingleStream: Verify must not touch it.           *)
 EXTENDS Integers, Sequences, TLC, Json
 
-DictTokens == {"0", "1", "4095", "4096", "8MiB", "max", "over"}
+DictTokens == {"0", "1", "4095", "4096", "4097", "100000", "8MiB", "max", "over"}
 DictFill(d) == IF d = "0" THEN "8MiB" ELSE d
-DictOk(d) == DictFill(d) \in {"4096", "8MiB", "max"}
+DictOk(d) == DictFill(d) \in {"4096", "4097", "100000", "8MiB", "max"}
 
 BufTokens == {0, 1, 272, 273, 4096}
 BufFill(b) == IF b = 0 THEN 4096 ELSE b
@@ -49,7 +51,8 @@ Table(kind) ==
   CASE kind = "xz" -> { [cfg |-> c, ok |-> XzWriterOk(c), dict |-> DictFill(c.dict), buf |-> BufFill(c.buf), props |-> PropFill(c.props), check |-> CheckFill(c.check, c.none)] : c \in XzWriterCases }
     [] kind = "lzma2" -> { [cfg |-> c, ok |-> Writer2Ok(c), dict |-> DictFill(c.dict), buf |-> BufFill(c.buf), props |-> PropFill(c.props), check |-> 0] : c \in Writer2Cases }
     [] kind = "lzma" -> { [cfg |-> c, ok |-> AloneOk(c), dict |-> DictFill(c.dict), buf |-> BufFill(c.buf), props |-> PropFill(c.props), check |-> 0] : c \in AloneCases }
-    [] kind = "reader" -> { [cfg |-> [dict |-> d], ok |-> ReaderOk(d), dict |-> DictFill(d), buf |-> 0, props |-> <<0, 0, 0>>, check |-> 0] : d \in DictTokens }
+    [] kind = "reader" -> { [cfg |-> [dict |-> d, single |-> sg], ok |-> ReaderOk(d), dict |-> DictFill(d), buf |-> 0, props |-> <<0, 0, 0>>, check |-> 0, single |-> sg] :
+                              d \in DictTokens, sg \in BOOLEAN }
 
 CONSTANT Kind
 (* Verify never accepts what the writer cannot honour. *)
